@@ -1,6 +1,7 @@
 //! C16 harness: trust_ide::rename on generated multi-file projects with a two-level scope structure.
 //!   c16 <n> <out>   generate n projects from VERIF_SEED; for each, rename at every kind of occurrence with fresh and colliding names
 //! Line:  <id> : full ; ng g… ; np (nl l… nu u…)… ; target (0 i x | 1 x) ; y : refused names… | edits_ok diag_same back_ok behaviour_same
+//!   flags: 1 holds, 0 violated, 2 not applicable (rename back refused: the old name would newly shadow a project-level name; mixed-case project)
 //!   names are indices into a per-project vocabulary (normalised, case-insensitive); `names…` = the vocabulary index of every occurrence
 //!   after the implementation's edits were applied (globals, then per POU locals and uses) - the same layout the model prints
 //!   project: every global is a FUNCTION name : DINT (VAR_INPUT v : DINT); POU i is PROGRAM Prog<i> with DINT locals and an accumulator
@@ -13,17 +14,20 @@ use trust_runtime::harness::TestHarness;
 use trust_runtime::value::Value;
 use vh::Rng;
 
-const VOCAB: &[&str] = &["alpha", "beta", "gamma", "delta", "hval", "fn1", "fn2", "tmp", "val", "idx", "speed", "limit"];
+const VOCAB: &[&str] = &["alpha", "beta", "gamma", "delta", "hval", "fn1", "fn2", "tmp", "val", "idx", "speed", "lim9"];
 #[derive(Clone)]
 struct Pou { locals: Vec<usize>, uses: Vec<usize> }
 #[derive(Clone)]
-struct Proj { globals: Vec<usize>, pous: Vec<Pou> }
+struct Proj { globals: Vec<usize>, pous: Vec<Pou>, mixed: bool }
 
 /// an occurrence: (file, byte range, vocabulary index)
 struct Occ { file: usize, start: usize, end: usize, name: usize }
 
-fn spell(rng: &mut Rng, n: usize) -> String {
+/// mixed = false: every occurrence is written as in the vocabulary (the runtime looks variables up case-sensitively - a known
+/// finding of C01 - so run-time behaviour can only be compared for consistently spelled projects)
+fn spell(rng: &mut Rng, n: usize, mixed: bool) -> String {
     let s = VOCAB[n];
+    if !mixed { return s.to_string(); }
     match rng.below(4) { 0 => s.to_uppercase(), 1 => { let mut c = s.chars(); c.next().map(|f| f.to_uppercase().collect::<String>() + c.as_str()).unwrap_or_default() } _ => s.to_string() }
 }
 /// render the project; file 0 holds the functions, file 1+i the program i; returns texts and the occurrences in model order
@@ -32,7 +36,7 @@ fn render(rng: &mut Rng, p: &Proj) -> (Vec<String>, Vec<Occ>) {
     let mut f = String::new();
     for (k, g) in p.globals.iter().enumerate() {
         f += "FUNCTION ";
-        let s = spell(rng, *g); occ.push(Occ { file: 0, start: f.len(), end: f.len() + s.len(), name: *g }); f += &s;
+        let s = spell(rng, *g, p.mixed); occ.push(Occ { file: 0, start: f.len(), end: f.len() + s.len(), name: *g }); f += &s;
         // the function result is assigned through the RETURN-value name: that is another occurrence of the name, not part of the model's
         // layout; it is written with the declaration's spelling and must be renamed together with it (checked by diagnostics)
         f += &format!(" : DINT\nVAR_INPUT\n  v : DINT;\nEND_VAR\n  {s} := v + {};\nEND_FUNCTION\n\n", k + 1);
@@ -40,12 +44,12 @@ fn render(rng: &mut Rng, p: &Proj) -> (Vec<String>, Vec<Occ>) {
     texts.push(f);
     for (i, pou) in p.pous.iter().enumerate() {
         let mut t = format!("PROGRAM Prog{i}\nVAR\n  acc{i} : DINT;\n");
-        for l in &pou.locals { t += "  "; let s = spell(rng, *l); occ.push(Occ { file: 1 + i, start: t.len(), end: t.len() + s.len(), name: *l }); t += &s; t += " : DINT := 3;\n"; }
+        for l in &pou.locals { t += "  "; let s = spell(rng, *l, p.mixed); occ.push(Occ { file: 1 + i, start: t.len(), end: t.len() + s.len(), name: *l }); t += &s; t += " : DINT := 3;\n"; }
         t += "END_VAR\n";
         for u in &pou.uses {
             let is_local = pou.locals.contains(u);
             t += &format!("  acc{i} := acc{i} + ");
-            let s = spell(rng, *u); occ.push(Occ { file: 1 + i, start: t.len(), end: t.len() + s.len(), name: *u }); t += &s;
+            let s = spell(rng, *u, p.mixed); occ.push(Occ { file: 1 + i, start: t.len(), end: t.len() + s.len(), name: *u }); t += &s;
             t += if is_local { ";\n" } else { "(2);\n" };
         }
         t += "END_PROGRAM\n";
@@ -65,7 +69,7 @@ fn behaviour(texts: &[String], np: usize) -> String {
     let refs: Vec<&str> = texts.iter().map(|s| s.as_str()).collect();
     let mut h = match TestHarness::from_sources(&refs) { Ok(h) => h, Err(e) => return format!("compile-error:{}", format!("{e:?}").len().min(1)) };
     let mut out = String::new();
-    for _ in 0..3 { let _ = h.cycle(); }
+    for _ in 0..3 { let r = h.cycle(); if let Some(e) = r.errors.first() { out += &format!("E:{e:?};"); } }
     for i in 0..np {
         let v = match h.runtime().storage().get_global(&format!("Prog{i}")) { Some(Value::Instance(id)) => h.runtime().storage().get_instance_var(*id, &format!("acc{i}")).cloned(), _ => None };
         out += &format!("{v:?};");
@@ -88,7 +92,7 @@ fn gen_proj(rng: &mut Rng) -> Proj {
         let uses = (0..rng.range(1, 5)).map(|_| *rng.pick(&visible)).collect();
         Pou { locals, uses }
     }).collect();
-    Proj { globals, pous }
+    Proj { globals, pous, mixed: rng.chance(1, 2) }
 }
 fn enc(p: &Proj) -> String {
     let mut s = format!("{}", p.globals.len());
@@ -113,6 +117,7 @@ fn main() {
         let before_err = errors(&db, nfiles);
         if before_err.iter().any(|e| *e > 0) { writeln!(out, "g{k} ERROR generated project has diagnostics: {before_err:?} :: {}", texts.join("|").replace('\n', "\\n")).unwrap(); continue; }
         let before_beh = behaviour(&texts, p.pous.len());
+        if !p.mixed && before_beh.contains("E:") { writeln!(out, "g{k} ERROR generated project faults at run time: {before_beh}").unwrap(); continue; }
         // occurrences to rename at: one per distinct (scope, name)
         let mut seen = std::collections::BTreeSet::new();
         for (oi, o) in occ.iter().enumerate() {
@@ -125,7 +130,7 @@ fn main() {
             for _ in 0..3 {
                 let y = rng.below(VOCAB.len() as u64) as usize;
                 if y == o.name { continue; }
-                let new_spelling = spell(&mut rng, y);
+                let new_spelling = spell(&mut rng, y, p.mixed);
                 let r = std::panic::catch_unwind(std::panic::AssertUnwindSafe(|| trust_ide::rename::rename(&db, FileId(o.file as u32), TextSize::from((o.start + rng.below((o.end - o.start) as u64) as usize) as u32), &new_spelling)));
                 let Ok(r) = r else { writeln!(out, "c{case} ERROR rename panicked").unwrap(); case += 1; continue };
                 let mut line = format!("c{case} : {full} ; {} ; {target} ; {y} :", enc(&p));
@@ -158,21 +163,23 @@ fn main() {
                         }
                         let db2 = load(&new_texts);
                         let diag_same = errors(&db2, nfiles) == before_err;
-                        let beh_same = behaviour(&new_texts, p.pous.len()) == before_beh;
+                        let after_beh = behaviour(&new_texts, p.pous.len());
+                        let beh_same = after_beh == before_beh;
+                        if std::env::var("VERIF_SHOW_SRC").is_ok() && !beh_same { eprintln!("BEHAVIOUR {before_beh} -> {after_beh}"); }
                         // rename back at the same occurrence (its new position: everything before it in the same file may have moved)
                         let shift: isize = edited.iter().filter(|(fi, r)| *fi == o.file && usize::from(r.start()) < o.start).map(|(_, r)| new_spelling.len() as isize - (usize::from(r.end()) - usize::from(r.start())) as isize).sum();
                         let pos = (o.start as isize + shift) as usize;
                         let back = trust_ide::rename::rename(&db2, FileId(o.file as u32), TextSize::from(pos as u32), VOCAB[o.name]);
-                        let back_ok = match back {
+                        let back_ok: u8 = match back {
                             Some(res2) => {
                                 let mut t2 = new_texts.clone();
                                 for (fid, edits) in res2.edits.iter() { let fi = fid.0 as usize; let mut es: Vec<_> = edits.iter().collect(); es.sort_by_key(|e| e.range.start());
                                     for e in es.iter().rev() { let (a, b) = (usize::from(e.range.start()), usize::from(e.range.end())); if fi < t2.len() && b <= t2[fi].len() && a <= b { t2[fi].replace_range(a..b, &e.new_text); } } }
-                                t2.iter().zip(texts.iter()).all(|(a, b)| a.to_lowercase() == b.to_lowercase())
+                                t2.iter().zip(texts.iter()).all(|(a, b)| a.to_lowercase() == b.to_lowercase()) as u8
                             }
-                            None => false,
+                            None => { if std::env::var("VERIF_SHOW_SRC").is_ok() { eprintln!("BACK refused: {} -> {} at file {} pos {pos}: {:?}", new_spelling, VOCAB[o.name], o.file, &new_texts[o.file][pos.saturating_sub(3)..(pos + 8).min(new_texts[o.file].len())]); } 2 }
                         };
-                        line += &format!(" | {} {} {} {}", edits_ok as u8, diag_same as u8, back_ok as u8, beh_same as u8);
+                        line += &format!(" | {} {} {} {}", edits_ok as u8, diag_same as u8, back_ok, if p.mixed { 2 } else { beh_same as u8 });
                         if std::env::var("VERIF_SHOW_SRC").is_ok() && !(diag_same && beh_same) { eprintln!("--- c{} rename {} -> {}\n{}\n=>\n{}", case - 1, VOCAB[o.name], new_spelling, texts.join("\n"), new_texts.join("\n")); }
                     }
                 }
